@@ -141,6 +141,67 @@ def h_sig(which: int, pos: int, b: int) -> int:
     return 1
 
 
+# ------------------------------------------------------------------ C09.image: one AKAI image in five containers through the real entry points
+def _wrap2352(img):
+    """independent MODE1/2352 writer: 12 sync bytes, 3 address bytes, mode 1, 2048 user bytes, 288 EDC/ECC bytes per sector"""
+    out = bytearray()
+    n = (len(img) + 2047) // 2048
+    for i in range(n):
+        block = img[i * 2048:(i + 1) * 2048].ljust(2048, b"\0")
+        out += b"\x00" + b"\xff" * 10 + b"\x00" + bytes([(i // 4500) % 100, (i // 75) % 60, i % 75]) + b"\x01" + block + bytes(288)
+    return bytes(out)
+
+
+def _wrap_mdx(img):
+    return b"MEDIA DESCRIPTOR" + b"\x02\x01" + b"\xa9" + b" " * 25 + b"\xff" * 4 + (64 + len(img)).to_bytes(8, "little") + bytes(8) + img
+
+
+def h_image(container: int, tail: int, what: int) -> int:
+    """
+    pre: 1 <= container <= 4 and 0 <= tail <= 2 and 0 <= what <= 5
+    post: _ == 1
+    """
+    CNT[0] += 1
+    container, tail, what = conc(container, 1, 4), conc(tail, 0, 2), conc(what, 0, 5)
+    with untraced():
+        import os
+        import shutil
+        import struct
+        import tempfile
+        from vf import akaiw
+        from vf.props import c16, c01
+        sf = akaiw.sample_file
+        files = [("AAA", 0x73, sf("AAA", c01._words(6000, 1)), [1, 0]), ("PAD -L", 0x73, sf("PAD -L", c01._words(300, 3)), None),
+                 ("PAD -R", 0x73, sf("PAD -R", c01._words(300, 4)), None), ("BBB", 0xf3, sf("BBB", c01._words(4026, 2), rate=22050), None)]
+        img = akaiw.partition([("VOL ONE", files, None), ("VOL TWO", [("AAA", 0x73, sf("AAA", c01._words(9, 7)), None)], None)], size_sectors=24)
+        img += bytes((0, 1000, 2048 + 517)[tail])         # image length a multiple of 2048 or not
+        d = tempfile.mkdtemp(prefix="vf_c09_")
+        try:
+            def put(name, data):
+                with open(os.path.join(d, name), "wb") as fh:
+                    fh.write(data)
+                return os.path.join(d, name)
+            raw = put("raw.img", img)
+            if container == 1:
+                other = put("sec.img", _wrap2352(img))
+            elif container == 2:
+                other = put("img.mdx", _wrap_mdx(img))
+            elif container == 3:
+                put("data.bin", img)
+                other = put("c.cue", b'FILE "data.bin" BINARY\r\n  TRACK 01 MODE1/2048\r\n    INDEX 01 00:00:00\r\n')
+            else:
+                put("data2.bin", _wrap2352(img))
+                other = put("c2.cue", b'file "data2.bin" binary\n  track 01 mode1/2352\n    index 01 00:00:00\n')
+            op = [("ls", ""), ("ls", "A:"), ("ls", "a/VOL ONE"), ("ls", "A:/VOL ONE/BBB"), ("ls", "A:/NOPE"), ("export", None)][what]
+            a = c16._do(actions.determine_image_type(raw), op)
+            b = c16._do(actions.determine_image_type(other), op)
+            if type(actions.determine_image_type(other)).__name__ != "AkaiImageParser":
+                return 0
+            return 1 if a == b else 0
+        finally:
+            shutil.rmtree(d, ignore_errors=True)
+
+
 RUNS = ["smpl_extract.actions:determine_image_type", "smpl_extract.alcohol.mdx:MdxStream", "smpl_extract.alcohol.mdx:is_mdx_image",
         "smpl_extract.alcohol.mdf:is_mdf_image", "smpl_extract.alcohol.mdf:MdfStream", "smpl_extract.roland.s7xx.image:is_roland_s7xx_image",
         "smpl_extract.actions:attempt_parse_cue_sheet", "smpl_extract.util.stream:StreamOffset"]
@@ -151,7 +212,7 @@ META = {
                     "independent wrapper models: 2352-byte raw sectors = 16 header + 2048 data + 288 EDC; MDX = 64-byte header (eof = total length) + image",
                     "C09.sig: the symbolic byte is concrete per path (256 values x 64 positions walked by the solver's decision tree)"],
     "trusted": ["CPython 3.12", "z3 5.1", "CrossHair 0.0.110", "construct 2.10 (header parsing)", "AbsFile/Spans"],
-    "out_of_claim": ["MDX padding bytes 44..47 and 56..63 are accepted with any value by construct.Padding on parse (no claim)", "Roland signature bytes (regex on 3 strings; covered only by the cascade stub)"],
+    "out_of_claim": ["Roland images in containers end to end (no Roland writer; the byte-level obligations are format independent)", "MDX padding bytes 44..47 and 56..63 are accepted with any value by construct.Padding on parse (no claim)", "Roland signature bytes (regex on 3 strings; covered only by the cascade stub)"],
 }
 
 
@@ -172,6 +233,10 @@ def obligations(tier, seed):
     for o in c03.obligations(tier, seed):
         if o["name"] == "C03.dispatch":
             obs.append(dict(o, name="C09.cue"))
+    for container, cname in ((1, "2352-sectors"), (2, "mdx"), (3, "cue-raw"), (4, "cue-2352")):
+        obs.append(ob(f"C09.image/{cname}", "h_image", [f"container == {container}"], "image tail (multiple of 2048 or not), operation (4 ls levels, invalid path, export)",
+                      "one AKAI image from the independent writer, wrapped by independent container writers; real files; compared with the raw image",
+                      ["independent AKAI / MODE1-2352 / MDX / cue writers", "temporary files"]))
     for which in (0, 1):
         positions = (list(range(0, 20)) + [44, 48, 63]) if q else list(range(64))
         for lo in range(0, len(positions), 2):
